@@ -49,7 +49,7 @@ def norm_reply(r, head):
     if r["kind"] != "resp":
         return r
     if r.get("late"):
-        r.update({"status": 200, "framing": "chunked" if r.get("framing") == "chunked" else "len", "keep": True, "stray": "none", "eof_after": False})
+        r.update({"status": r["status"] if r.get("status") in BODY_STATUSES else 200, "framing": "chunked" if r.get("framing") == "chunked" else "len", "keep": True, "stray": "none", "eof_after": False})
         r["first"] = min(r["first"], 3)
         r["n"] = r["sent"] = r["first"] + LATE_TAIL
     bodyless = head or r["status"] in (204, 304)
@@ -71,6 +71,7 @@ def norm_reply(r, head):
 
 
 LATE_TAIL = 56          # len of the held-back rest of a late reply (see serve)
+BODY_STATUSES = (200, 201, 205, 206, 404, 500)          # statuses whose responses carry the body their framing announces
 
 
 def is_late(r):
@@ -89,7 +90,7 @@ def enc_reply(r):
     if r.get("late"):
         # what is sent at once is `first` bytes; the rest (LATE_TAIL bytes) is held back until the next request arrives (model: SLate / IHold)
         first = min(r["first"], 3)
-        return [0, 200, FRAMING["chunked" if r.get("framing") == "chunked" else "len"], first + LATE_TAIL, first, first, B(True), 4, B(False)]
+        return [0, r["status"] if r.get("status") in BODY_STATUSES else 200, FRAMING["chunked" if r.get("framing") == "chunked" else "len"], first + LATE_TAIL, first, first, B(True), 4, B(False)]
     return [0, r["status"], FRAMING[r["framing"]], r["n"], r["first"], r["sent"], B(r["keep"]), STRAY[r["stray"]], B(r["eof_after"])]
 
 
@@ -416,7 +417,7 @@ def rand_reply(rng):
         return {"kind": "eof"}
     n = rng.choice([0, 1, 2, 3, 4, 5, 7])
     sent = n if rng.random() < 0.8 else rng.randint(0, n)
-    return {"kind": "resp", "status": rng.choice([200, 200, 200, 200, 204, 304]), "framing": rng.choice(["len", "len", "chunked", "eof"]),
+    return {"kind": "resp", "status": rng.choice([200, 200, 200, 200, 204, 304, 205, 404, 201]), "framing": rng.choice(["len", "len", "chunked", "eof"]),
             "n": n, "first": rng.choice([0, 1, 2, n, n]), "sent": sent, "keep": rng.random() < 0.75,
             "stray": rng.choice(["none", "none", "none", "same_resp", "sep_resp", "same_junk", "sep_junk"]), "eof_after": rng.random() < 0.12}
 
@@ -500,6 +501,11 @@ def cases(rng, tier):
                 out.append({"maxsize": maxsize, "reqs": [{"head": False, "preload": False, "caller": list(c)}, {"head": False, "preload": False, "caller": ["read_all"]},
                                                          {"head": False, "preload": True, "caller": ["read_all"]}],
                             "replies": [dict(PLAIN, first=first, late=True)] + [dict(PLAIN)] * 12})
+                for st in (201, 205, 206, 404, 500):
+                    # the same for other statuses whose responses carry a body (205 Reset Content with a Content-Length does)
+                    out.append({"maxsize": maxsize, "reqs": [{"head": False, "preload": False, "caller": list(c)}, {"head": False, "preload": False, "caller": ["read_all"]},
+                                                             {"head": False, "preload": True, "caller": ["read_all"]}],
+                                "replies": [dict(PLAIN, status=st, first=first, late=True)] + [dict(PLAIN)] * 12})
                 if c[0] != "read1":
                     out.append({"maxsize": maxsize, "reqs": [{"head": False, "preload": False, "caller": list(c)}, {"head": False, "preload": False, "caller": ["read_all"]},
                                                              {"head": False, "preload": True, "caller": ["read_all"]}],
